@@ -157,7 +157,7 @@ Lemma ext_overflow (s : bool) (r : R) :
   ext (B754_infinity s) = clamp r.
 Proof.
   intros A P N. pose proof (M_gt_1 prec emax Hp Hpe).
-  destruct (clamp_spec r) as [[]|[[]|[]]]; destruct s; unfold GuardLemmas.ext;
+  destruct (clamp_spec r) as [[]|[[]|[]]]; destruct s; unfold GuardSpec.ext;
   unfold Rabs in A; destruct (Rcase_abs r); specialize (P eq_refl) || specialize (N eq_refl); lra.
 Qed.
 
@@ -255,7 +255,7 @@ Qed.
 Lemma ext_pos_sign (x : float) : is_nan x = false -> 0 < ext x -> Bsign x = false.
 Proof.
   pose proof (M_gt_1 prec emax Hp Hpe).
-  destruct x as [|[|]| |]; unfold GuardLemmas.ext; try discriminate; intros _ P; try reflexivity; try lra.
+  destruct x as [|[|]| |]; unfold GuardSpec.ext; try discriminate; intros _ P; try reflexivity; try lra.
   simpl in P; lra. now apply B2R_pos_sign.
 Qed.
 
@@ -315,7 +315,7 @@ Qed.
 (* ---- finiteness from the extended value ---- *)
 Lemma is_finite_of_ext (x : float) : is_nan x = false -> - M < ext x < M -> is_finite x = true.
 Proof.
-  destruct x as [|[|]| |]; unfold GuardLemmas.ext; try discriminate; try reflexivity; intros _ B; lra.
+  destruct x as [|[|]| |]; unfold GuardSpec.ext; try discriminate; try reflexivity; intros _ B; lra.
 Qed.
 
 Lemma ext_clamp_finite (r : float) (v : R) :
